@@ -45,6 +45,10 @@ def pack_uint(I, x, n, little=True):
     """bytes of unsigned int term x (already range checked) in n bytes."""
     if n == 1:
         return z3.Unit(x)
+    xs = z3.simplify(x)
+    if z3.is_int_value(xs) and 0 <= xs.as_long() < 256 ** n:
+        bs = xs.as_long().to_bytes(n, 'little' if little else 'big')
+        return z3.Concat(*[z3.Unit(z3.IntVal(b)) for b in bs])
     f = le_fn(n) if little else be_fn(n)
     g = unle_fn(n) if little else unbe_fn(n)
     t = f(x)
@@ -63,6 +67,9 @@ def unpack_uint(I, b, n, little=True):
         e = b[0]
         I.fact(z3.And(e >= 0, e < 256))
         return e
+    cs = I.concrete_seq(b)
+    if cs is not None and len(cs) == n and all(0 <= c < 256 for c in cs):
+        return z3.IntVal(int.from_bytes(bytes(cs), 'little' if little else 'big'))
     f = le_fn(n) if little else be_fn(n)
     g = unle_fn(n) if little else unbe_fn(n)
     x = g(b)
@@ -892,6 +899,15 @@ def m_clsof(I, args, kwargs):
 def m_hash_spec(names):
     def f(I, args, kwargs):
         v = args[0]
+        if isinstance(v, (bytes, bytearray)) and not I.config.get('abstract_hashes'):
+            b = bytes(v)
+            for nm in names:
+                if nm == 'ripemd160':
+                    from bitcoin.core.contrib.ripemd160 import ripemd160 as _r
+                    b = _r(b)
+                else:
+                    b = hashlib.new(nm, b).digest()
+            return b
         t = I.seq_term(v)
         for nm in names:
             t = hashfn(I, nm, t, {'sha256': 32, 'sha1': 20, 'ripemd160': 20}[nm])
